@@ -2,6 +2,7 @@
 Require Import Coq.Strings.String Coq.Lists.List Coq.Bool.Bool Coq.Arith.PeanoNat.
 Require Import GAApi.Syntax GAApi.ModelTypes GAApi.ModelStatic GAApi.TypesProofs.
 Require Import GAApi.Gen.GenTypes GAApi.Gen.GenWrite.
+Require GAApi.ModelSigs GAApi.Gen.GenSigs.
 Import ListNotations.
 Open Scope string_scope.
 
@@ -132,3 +133,27 @@ Definition rebranding_impl : impl_hdr :=
      i_consts := [] |}.
 Lemma rebranding_impl_fails : impl_args_brand_ok rebranding_impl = false.
 Proof. vm_compute. reflexivity. Qed.
+
+(** *** Arguments of one call share one brand *)
+Definition BRANDED := branded ADTS.
+
+Lemma args_brand_check : forallb (ModelSigs.args_share_brand decls BRANDED) GenSigs.pub_fns = true.
+Proof. vm_compute. reflexivity. Qed.
+
+Lemma args_brand_lifted : forall f, In f GenSigs.pub_fns -> ModelSigs.args_share_brand decls BRANDED f = true.
+Proof. exact (proj1 (forallb_forall _ _) args_brand_check). Qed.
+
+(** not vacuous: many functions take two or more branded arguments, among them the ones a finalizer uses *)
+Lemma args_brand_nonvacuous :
+  Nat.leb 30 (List.length (filter (fun f => Nat.ltb 1 (List.length (ModelSigs.fn_brands decls BRANDED f))) GenSigs.pub_fns)) = true
+  /\ forallb (fun on => existsb (fun f => String.eqb (fs_owner f) (fst on) && String.eqb (fs_name f) (snd on)
+                                          && Nat.ltb 1 (List.length (ModelSigs.fn_brands decls BRANDED f))) GenSigs.pub_fns)
+             [("Gc", "resurrect"); ("Gc", "is_dead"); ("GcWeak", "upgrade"); ("GcWeak", "resurrect"); ("Gc", "write");
+              ("DynamicRootSet", "stash"); ("Mutation", "backward_barrier"); ("Mutation", "forward_barrier")] = true.
+Proof. split; vm_compute; reflexivity. Qed.
+
+(** [fn resurrect(fc: &Finalization<'_>, gc: Gc<'gc, T, K>)] -- the context at an anonymous lifetime -- fails *)
+Lemma anonymous_context_fails :
+  ModelSigs.brands_agree [LElided; LNamed "'gc"] = false /\ ModelSigs.brands_agree [LNamed "'a"; LNamed "'gc"] = false
+  /\ ModelSigs.brands_agree [LNamed "'gc"; LNamed "'gc"; LNamed "'gc"] = true.
+Proof. repeat split. Qed.
